@@ -256,23 +256,31 @@ pub fn run(tier: Tier) -> i32 {
         let tai = LinuxClock::CLOCK_TAI.get_tai_offset().unwrap_or(0) as i64;
         let base_s = raw_now.secs() as i64 - tai;
         let stamps: Vec<(i64, u32)> = vec![(base_s - 100, 0), (base_s, 999_999_999), (base_s + 1, 0), (base_s + 1000, 123_456_789)];
-        for code in 0..(if d == 0 { 0 } else { (ops.len() as u64).pow(d as u32) }) {
-            let seq: Vec<Op> = (0..d).map(|i| ops[((code / (ops.len() as u64).pow(i as u32)) % ops.len() as u64) as usize]).collect();
-            let mut shared = SharedClock::new(OverlayClock::new(LinuxClock::CLOCK_TAI));
+        // every operation goes through one of two handles (clones) of the same shared clock,
+        // chosen by the parity of its position XOR a bit of the sequence code
+        let n_ops = ops.len() as u64;
+        for code in 0..(if d == 0 { 0 } else { 2 * n_ops.pow(d as u32) }) {
+            let handle_bit = (code % 2) as usize;
+            let code = code / 2;
+            let seq: Vec<Op> = (0..d).map(|i| ops[((code / n_ops.pow(i as u32)) % n_ops) as usize]).collect();
+            let mut first = SharedClock::new(OverlayClock::new(LinuxClock::CLOCK_TAI));
+            let mut second = first.clone();
+            let shared = first.clone();
             let mut steps_sum: i128 = 0;
             let mut only_steps = true;
             let mut ppm = 0i64;
             for (i, op) in seq.iter().enumerate() {
+                let via: &mut SharedClock<OverlayClock<LinuxClock>> = if (i + handle_bit) % 2 == 0 { &mut first } else { &mut second };
                 match *op {
                     Op::Freq(p) => {
-                        let _ = shared.set_frequency(p as f64);
+                        let _ = via.set_frequency(p as f64);
                         ppm = p as i64;
                         if p != 0 {
                             only_steps = false;
                         }
                     }
                     Op::Step(ns) => {
-                        let _ = shared.step_clock(Duration::from_nanos(ns));
+                        let _ = via.step_clock(Duration::from_nanos(ns));
                         steps_sum += ns as i128;
                     }
                     Op::Advance(_) => {}
